@@ -103,7 +103,7 @@ func TestVerif_C02_Sched(t *testing.T) {
 		a, pan := call(sc, vkNewMulti(2, ep))
 		b, _ := call(sc, vkNewMulti(2, ep))
 		if pan != nil {
-			R.Internal("reference call %s panicked: %v", sc.Name, pan)
+			R.Violation("C02|sched|idle-server-panics|"+sc.API, fmt.Sprintf("[%s] the request for an archived block panicked on an idle server: %v", sc.Name, pan), map[string]interface{}{"scenario": sc})
 			return
 		}
 		if a != b {
@@ -111,7 +111,9 @@ func TestVerif_C02_Sched(t *testing.T) {
 			return
 		}
 		if strings.HasPrefix(a, "error: ") || (sc.API == "json" && !strings.Contains(a, `"result"`)) {
-			R.Internal("reference call %s failed: %.300s", sc.Name, a)
+			// (the archive is intact and the block is in it: the other variants judge the content of the answer, here it
+			// only has to be one)
+			R.Violation("C02|sched|idle-server-fails|"+sc.API, fmt.Sprintf("[%s] the request for an archived block failed on an idle server: %.300s", sc.Name, a), map[string]interface{}{"scenario": sc})
 			return
 		}
 		ref[sc.Name] = a
